@@ -289,6 +289,63 @@ def run(kind, outcomes, corr, seed, step, tmin, tmax, smin, smax, max_members, m
 '''
 
 
+def _replay_general():
+    """General confirmation on the compiled build: the real predictor-corrector backend on a model family (points of the parabola
+    y = x^2, parameter x) with scripted accept/reject sequences, natural and secant steppers, increasing and decreasing parameter:
+    counters equal the events, the member limit and the retry budget hold, predictions start from the last accepted member with a
+    step inside [step_min, step_max] that shrinks after a rejection, and no member but the last lies outside the target interval."""
+    return _REPLAY_COMMON + '''
+bad = {}
+rs = np.random.default_rng(13)
+for kind in ("natural", "secant"):
+    for sgn in (1.0, -1.0):
+        for trial in range(12):
+            max_members = int(rs.integers(2, 7)); max_retries = int(rs.integers(0, 4))
+            outcomes = [bool(rs.random() < 0.65) for _ in range(64)]
+            calls = []
+            def corrector(pred):
+                k = len(calls); calls.append(np.array(pred, dtype=float))
+                return np.array([pred[0], pred[0] ** 2]), 0.0, outcomes[k], {"period": float(k)}
+            def predictor(last, st):
+                last = np.asarray(last, dtype=float).copy(); last[0] += float(np.asarray(st, dtype=float)[0]); return last
+            tmin, tmax = (0.0, 0.9) if sgn > 0 else (-0.9, 0.0)
+            smin, smax, step0 = 1e-3, 0.4, 0.2 * sgn
+            req = ContinuationBackendRequest(seed_repr=np.array([0.0, 0.0]), stepper_fn=(predictor if kind == "natural" else (lambda v: np.asarray(v, dtype=float))), predictor_fn=predictor,
+                parameter_getter=lambda r: np.asarray(r, dtype=float)[:1], corrector=corrector, step=np.array([step0]), target=np.array([[tmin], [tmax]]), max_members=max_members,
+                max_retries_per_step=max_retries, shrink_policy=None, step_min=smin, step_max=smax)
+            be = _PredictorCorrectorContinuationBackend(stepper_factory=(make_natural_stepper() if kind == "natural" else make_secant_stepper()), support_factory=(None if kind == "natural" else _VectorSpaceSecantSupport))
+            tag = "%s_sign%+d_trial%d" % (kind, int(sgn), trial)
+            try:
+                resp = be.run(request=req)
+            except Exception as e:
+                bad[tag] = "raised %s" % repr(e)[:80]; continue
+            fam = [np.asarray(m, dtype=float) for m in resp.family_repr]; n = len(calls); used = outcomes[:n]
+            if len(fam) > max_members: bad[tag + "_member_limit"] = len(fam); continue
+            info = resp.info
+            if int(info["accepted_count"]) != 1 + sum(used) or len(fam) != 1 + sum(used): bad[tag + "_accepted"] = [int(info["accepted_count"]), 1 + sum(used), len(fam)]; continue
+            if int(info["rejected_count"]) != n - sum(used) or int(info["iterations"]) != n: bad[tag + "_rejected"] = [int(info["rejected_count"]), n - sum(used), int(info["iterations"]), n]; continue
+            inside = [tmin - 1e-12 <= m[0] <= tmax + 1e-12 for m in fam]
+            if not all(inside[:-1]): bad[tag + "_target"] = "a member that is not the last lies outside the target interval"; continue
+            # predictions: from the last accepted member; step inside the clamps; shrinks after a rejection; retry budget per step
+            last, acc_i, prev_len, streak = fam[0], 0, None, 0
+            for k in range(n):
+                d = calls[k] - last; length = abs(d[0]) if kind == "natural" else float(np.linalg.norm(d))
+                if kind == "natural" and abs(d[1]) > 1e-12: bad[tag + "_prediction"] = "natural prediction changes more than the parameter"; break
+                if not (smin - 1e-12 <= length <= smax + 1e-12): bad[tag + "_clamp"] = "step length %.4g outside [%.4g, %.4g]" % (length, smin, smax); break
+                if kind == "natural" and np.sign(d[0]) != sgn: bad[tag + "_direction"] = "step changes direction"; break
+                if streak > 0 and prev_len is not None and length > prev_len * (1 + 1e-12) and prev_len > smin * (1 + 1e-9): bad[tag + "_shrink"] = "step grows after a rejection: %.4g -> %.4g" % (prev_len, length); break
+                prev_len = length
+                if used[k]: acc_i += 1; last = fam[acc_i]; streak = 0
+                else:
+                    streak += 1
+                    if streak > max_retries + 1: bad[tag + "_retries"] = "%d consecutive rejections with max_retries_per_step = %d" % (streak, max_retries); break
+            else:
+                # why did the run stop?  only at the member limit, with the last member outside the target, or after using up the retries of the CURRENT step
+                if len(fam) < max_members and inside[-1] and streak <= max_retries: bad[tag + "_stops_early"] = "%d of %d members, last inside the target, only %d consecutive rejections (max_retries_per_step = %d)" % (len(fam), max_members, streak, max_retries)
+_verdict(bool(bad), **{k: bad[k] for k in list(bad)[:8]})
+'''
+
+
 def _vals(env, pdim, ncalls=16):
     g = lambda k, d=0.0: float(env.get(k, d)) if env else d
     seed = [g('seed0'), g('seed1')]
@@ -439,6 +496,7 @@ _verdict(got[1:] != [1.0, 2.0, 3.0], periods=got)
 
 def main():
     chk = Check(PID)
+    chk.default_replay = _replay_general
     import hiten.algorithms.continuation.backends.pc as PC
     import hiten.algorithms.continuation.stepping.base as SB
     import hiten.algorithms.continuation.stepping.np.base as NB
